@@ -1,37 +1,42 @@
 #!/usr/bin/env python3
-"""Regenerates the round-2 seed table of DESIGN.md §13 (between the ROUND2-SEEDS markers) from /verif/seeded/*/meta.json."""
+"""Regenerates the round-2 and round-3 seed tables of DESIGN.md §13 (between the ROUNDn-SEEDS markers) from /verif/seeded/*/meta.json."""
 import json, os, re, sys
 root = '/verif/seeded'
-rows = []
-for sid in sorted(os.listdir(root)):
-    mp = os.path.join(root, sid, 'meta.json')
-    if not os.path.exists(mp) or sid[-1] not in 'def':
-        continue
-    m = json.load(open(mp))
-    caught = []
-    for ck, r in m.get('detection', {}).items():
-        if not r.get('fired'):
+def table(letters):
+    rows = []
+    for sid in sorted(os.listdir(root)):
+        mp = os.path.join(root, sid, 'meta.json')
+        if not os.path.exists(mp) or sid[-1] not in letters:
             continue
-        rules = []
-        for d in r.get('diagnostics', []):
-            mm = re.match(r'^[^ ]+: ([A-Z0-9][A-Z0-9-]+):', d)
-            if mm and mm.group(1) not in rules:
-                rules.append(mm.group(1))
-        caught.append(ck + ' ' + '/'.join(rules) if rules else ck)
-    added = m.get('rule_added_or_strengthened', '')
-    if not added:
-        mm = re.search(r'caught after ([^)]+)\)', m.get('needs_to_manifest', ''))
-        added = mm.group(1) if mm else '—'
-    def cell(t):
-        return ' '.join(str(t).replace('|', '\\|').split())
-    needs = re.sub(r'\s*\(initially missed[^)]*\)', '', m.get('needs_to_manifest', ''))
-    rows.append('| %s | %s | %s | %s | %s |' % (sid, cell(m['summary'])[:260], cell(needs)[:260], cell(', '.join(caught)) or '**not caught**', cell(added)))
-table = '| seed | change (one line) | needs to manifest | caught by | rule written/extended after the seed |\n|---|---|---|---|---|\n' + '\n'.join(rows)
+        m = json.load(open(mp))
+        caught = []
+        for ck, r in m.get('detection', {}).items():
+            if not r.get('fired'):
+                continue
+            rules = []
+            for d in r.get('diagnostics', []):
+                mm = re.match(r'^[^ ]+: ([A-Z0-9][A-Z0-9-]+):', d)
+                if mm and mm.group(1) not in rules:
+                    rules.append(mm.group(1))
+            caught.append(ck + ' ' + '/'.join(rules) if rules else ck)
+        added = m.get('rule_added_or_strengthened', '')
+        if not added:
+            mm = re.search(r'caught after ([^)]+)\)', m.get('needs_to_manifest', ''))
+            added = mm.group(1) if mm else '—'
+        def cell(t):
+            return ' '.join(str(t).replace('|', '\\|').split())
+        needs = re.sub(r'\s*\(initially missed[^)]*\)', '', m.get('needs_to_manifest', ''))
+        rows.append('| %s | %s | %s | %s | %s |' % (sid, cell(m['summary'])[:260], cell(needs)[:260], cell(', '.join(caught)) or '**not caught**', cell(added)))
+    return '| seed | change (one line) | needs to manifest | caught by | rule written/extended after the seed |\n|---|---|---|---|---|\n' + '\n'.join(rows), len(rows)
+
 p = '/verif/DESIGN.md'
 s = open(p).read()
-b, e = '<!-- ROUND2-SEEDS-BEGIN -->', '<!-- ROUND2-SEEDS-END -->'
-if b not in s:
-    sys.exit('markers missing')
-s = s[:s.index(b) + len(b)] + '\n' + table + '\n' + s[s.index(e):]
+for name, letters in (('ROUND2', 'def'), ('ROUND3', 'ghi')):
+    b, e = '<!-- %s-SEEDS-BEGIN -->' % name, '<!-- %s-SEEDS-END -->' % name
+    if b not in s:
+        print(name, 'markers missing')
+        continue
+    t, n = table(letters)
+    s = s[:s.index(b) + len(b)] + '\n' + t + '\n' + s[s.index(e):]
+    print(name, n, 'rows')
 open(p, 'w').write(s)
-print(len(rows), 'rows')
